@@ -14,6 +14,9 @@ from concurrent.futures import ThreadPoolExecutor
 VERIF = os.path.dirname(os.path.dirname(os.path.abspath(__file__)))
 REPO = os.environ.get("VERIF_REPO", "/repo")
 BUILD = os.path.join(VERIF, "build")
+if REPO != "/repo":       # scratch trees get their own cache so that concurrent runs never evict each other
+    import hashlib as _h
+    BUILD = os.path.join(BUILD, "alt-" + _h.sha1(os.path.realpath(REPO).encode()).hexdigest()[:10])
 HARNESS = os.path.join(VERIF, "harness")
 GUARD = "PLIBSYS_VERIF"
 
